@@ -23,7 +23,7 @@ structure HSeg where
   size : Nat
   used : Nat := 0
   tab : List (Nat × Nat) := []          -- `size` slots
-deriving Repr
+deriving Repr, DecidableEq
 
 /-- `MAX_USED(h)` -/
 def HSeg.maxUsed (h : HSeg) : Nat := h.size * 75 / 100
@@ -162,7 +162,7 @@ structure HP where
   allocated : Nat := 0
   used : Nat := 0
   elems : List Nat := []        -- the stored objects (order inside the array is C15's business)
-deriving Repr
+deriving Repr, DecidableEq
 
 def HP.owned (h : HP) : List Id :=
   h.hdr :: (match h.data with | none => [] | some d => [d])
@@ -209,12 +209,12 @@ def hpDestroyA (h : HP) (s : AS) : AS := freeS h.hdr (freeOptS h.data s)
 structure SItem where
   item : Id
   str : Option (Id × List UInt8)
-deriving Repr
+deriving Repr, DecidableEq
 
 structure SL where
   hdr : Id
   items : List SItem := []
-deriving Repr
+deriving Repr, DecidableEq
 
 def SItem.blocks (i : SItem) : List Id :=
   i.item :: (match i.str with | none => [] | some p => [p.1])
@@ -290,7 +290,7 @@ structure MB where
   data : Option Id := none
   allocLen : Nat := 0
   bytes : List UInt8 := []          -- written content; `write_pos = bytes.length`
-deriving Repr
+deriving Repr, DecidableEq
 
 def MB.owned (m : MB) : List Id := match m.data with | none => [] | some d => [d]
 
@@ -325,7 +325,7 @@ structure SB where
   total : Nat := 0
   free : Nat := 0
   frags : List Id := []
-deriving Repr
+deriving Repr, DecidableEq
 
 def SB.owned (b : SB) : List Id := b.hdr :: b.frags
 
@@ -364,7 +364,7 @@ structure CT where
   hdr : Id
   items : List Id := []
   subs : List (Id × List Id) := []       -- sub-tree struct ↦ its items
-deriving Repr
+deriving Repr, DecidableEq
 
 def CT.owned (t : CT) : List Id :=
   t.hdr :: (t.items ++ t.subs.flatMap fun p => p.1 :: p.2)
@@ -432,7 +432,7 @@ def ctDestroyA (t : CT) (s : AS) : AS :=
 structure HM where
   hash : Id
   ctx : Id
-deriving Repr
+deriving Repr, DecidableEq
 
 def HM.owned (h : HM) : List Id := [h.ctx, h.hash]
 
